@@ -428,6 +428,7 @@ seq_t dtw_warping_paths{{ suffix }}{{ suffix2 }}(seq_t *wps,
 //    dtw_print_wps_compact(wps, l1, l2, settings);
 //    dtw_print_wps(wps, l1, l2, settings);
 
+    {%- if "affinity" in suffix %}
     seq_t rvalue = 0;
     idx_t final_wpsi = ri_widthp + wpsi - 1;
     // Deal with Psi-relaxation
@@ -496,6 +497,73 @@ seq_t dtw_warping_paths{{ suffix }}{{ suffix2 }}(seq_t *wps,
         // DTWPruned keeps the last value larger than max_dist. Correct for this.
         rvalue = {{infinity}};
     }
+    {%- else %}
+    seq_t rvalue = 0;
+    // Index of the last cell: the rows below the left overlap are shifted in the compact layout
+    idx_t final_wpsi = l1*p.width + l2 - dtw_wps_shift(&p, l1 - 1);
+    // Deal with Psi-relaxation
+    if (return_dtw && settings->psi_1e == 0 && settings->psi_2e == 0) {
+        rvalue = wps[final_wpsi];
+    } else if (return_dtw) {
+        seq_t mir_value = INFINITY;
+        idx_t mir_rel = l1;
+        seq_t mic_value = INFINITY;
+        idx_t mic = l2;
+        // Find smallest value in last column
+        if (settings->psi_1e != 0) {
+            for (ri=l1; ri>0 && ri+settings->psi_1e>=l1; ri--) {
+                ci = l2 - dtw_wps_shift(&p, ri - 1);  // index of the last column in row ri
+                if (ci >= 0 && ci < p.width && wps[ri*p.width + ci] < mir_value) {
+                    mir_value = wps[ri*p.width + ci];
+                    mir_rel = ri;
+                }
+            }
+        }
+        // Find smallest value in last row
+        if (settings->psi_2e != 0) {
+            for (ci=l2; ci>0 && ci+settings->psi_2e>=l2; ci--) {
+                wpsi = ci - dtw_wps_shift(&p, l1 - 1);  // index of column ci in the last row
+                if (wpsi >= 0 && wpsi < p.width && wps[l1*p.width + wpsi] < mic_value) {
+                    mic_value = wps[l1*p.width + wpsi];
+                    mic = ci;
+                }
+            }
+        }
+        // Set values with higher indices than the smallest value to -1
+        // and return smallest value as DTW
+        if (mir_value < mic_value) {
+            // last column has smallest value
+            if (psi_neg) {
+                for (ri=mir_rel + 1; ri<l1 + 1; ri++) {
+                    ci = l2 - dtw_wps_shift(&p, ri - 1);
+                    if (ci >= 0 && ci < p.width) {
+                        wps[ri*p.width + ci] = -1;
+                    }
+                }
+            }
+            rvalue = mir_value;
+        } else {
+            // last row has smallest value
+            if (psi_neg) {
+                for (ci=mic + 1; ci<l2 + 1; ci++) {
+                    wpsi = ci - dtw_wps_shift(&p, l1 - 1);
+                    if (wpsi >= 0 && wpsi < p.width) {
+                        wps[l1*p.width + wpsi] = -1;
+                    }
+                }
+            }
+            rvalue =  mic_value;
+        }
+    } else {
+        rvalue = -1;
+    }
+
+    if (rvalue > p.max_dist) {
+        // DTWPruned keeps the last value larger than max_dist. Correct for this.
+        // (p.max_dist is in the internal representation, like rvalue, and infinite when not set)
+        rvalue = INFINITY;
+    }
+    {%- endif %}
 
 
     {%- if "euclidean" == inner_dist %}
